@@ -17,7 +17,7 @@ MODES = ['notready', 'statusfail', 'rtfail', 'pushfail', 'rt2fail', 'stale', 'pu
 
 
 def step(a, **k):
-    d = dict(a=a, i=0, t=0, series=0, total=0, on=False, modes=[], postFail=[], failScale=0)
+    d = dict(a=a, i=0, t=0, series=0, total=0, on=False, modes=[], postFail=[], failScale=0, place=[])
     d.update(k)
     return d
 
@@ -66,6 +66,14 @@ def gen_transfer_schedule(rnd, idn, faults):
         st.append(step('recreate', i=2))
     elif kind == 'restart':
         st.append(step('restart', i=rnd.choice([1, 2])))
+    # ... and what the move meets afterwards: the moved target goes down for good, the overload disappears
+    # again (no second relief transfer), or nothing
+    after = rnd.choice(['none', 'none', 'none', 'down', 'down', 'down', 'sizeback', 'sizeback', 'sizeback', 'sizeback'])
+    if after == 'down':
+        st.append(step('alive', t=rnd.choice([1, 2, 2, 3]), on=False))
+    elif after == 'sizeback':
+        st.append(step('size', t=2, series=3, total=3))
+        st += [step('scrape', i=1), step('scrape', i=2)]
     quiet_from = len(st) + 1
     for t in range(1, NT + 1):
         st.append(step('probe', t=t))
@@ -75,6 +83,54 @@ def gen_transfer_schedule(rnd, idn, faults):
             for i in range(1, MAXN + 1):
                 st.append(step('scrape', i=i))
     return dict(id=idn, nsh0=1, nt=NT, opts=opts, sizes=sizes, steps=st, quietFrom=quiet_from, expectConverge=True)
+
+
+def gen_placement_schedule(rnd, idn, faults):
+    """Directed family: the run starts from an arbitrary placement - every shard was handed an arbitrary set of
+    targets in arbitrary states (duplicates, pending transfers without partner, undiscovered targets) by somebody
+    else (a coordinator that crashed half-way through a cycle, another instance) - then the quiet tail."""
+    opts = rnd.choice(PRESETS)
+    sizes = [gen_size(rnd, opts, allow_big=False) for _ in range(NT)]
+    st = []
+    for t in range(1, NT + 1):
+        if rnd.random() < 0.85:
+            st.append(step('add', t=t))
+            if rnd.random() < 0.85:
+                st.append(step('probe', t=t))
+    nsh0 = rnd.choice([2, 2, 3])
+    pls = []
+    for i in range(1, nsh0 + 1):
+        pl = [dict(t=t, state=rnd.choice(['', '', 'in_transfer'])) for t in range(1, NT + 1) if rnd.random() < 0.5]
+        pls.append(pl)
+    if rnd.random() < 0.4:
+        # one target held by two shards, both copies marked in-transfer, no normal copy anywhere
+        t = rnd.randint(1, NT)
+        a, b = rnd.sample(range(nsh0), 2)
+        for i in range(nsh0):
+            pls[i] = [x for x in pls[i] if x['t'] != t] + ([dict(t=t, state='in_transfer')] if i in (a, b) else [])
+    for i in range(1, nsh0 + 1):
+        if pls[i - 1]:
+            st.append(step('place', i=i, place=sorted(pls[i - 1], key=lambda x: x['t'])))
+    for _ in range(rnd.choice([0, 1, 3])):
+        for i in range(1, nsh0 + 1):
+            st.append(step('scrape', i=i))
+    if faults and rnd.random() < 0.4:
+        # ... and the first cycle after it is disturbed as well
+        c = step('cycle')
+        c['postFail'] = [False] * MAXN
+        c['postFail'][rnd.randrange(nsh0)] = True
+        st.append(c)
+        for i in range(1, nsh0 + 1):
+            st.append(step('scrape', i=i))
+    quiet_from = len(st) + 1
+    for t in range(1, NT + 1):
+        st.append(step('probe', t=t))
+    for r in range(QUIET_ROUNDS):
+        st.append(step('cycle'))
+        for k in range(3):
+            for i in range(1, MAXN + 1):
+                st.append(step('scrape', i=i))
+    return dict(id=idn, nsh0=nsh0, nt=NT, opts=opts, sizes=sizes, steps=st, quietFrom=quiet_from, expectConverge=True)
 
 
 def gen_full_shards_schedule(rnd, idn, faults):
@@ -109,6 +165,8 @@ def gen_schedule(rnd, idn, faults):
         return gen_transfer_schedule(rnd, idn, faults)
     if x < 0.45:
         return gen_full_shards_schedule(rnd, idn, faults)
+    if x < 0.62:
+        return gen_placement_schedule(rnd, idn, faults)
     opts = rnd.choice(PRESETS)
     sizes = [gen_size(rnd, opts) for _ in range(NT)]
     st = []
@@ -254,7 +312,7 @@ def run_loop(prop, tier, scratch, faults, replay=None):
     kvh = C.build_harness(scratch)
     sd = C.stage_specs(scratch)
     rnd = random.Random(C.seed() * 48271 + (17 if faults else 5))
-    n = (60 if tier == 'quick' else 600)
+    n = (160 if tier == 'quick' else 1200)
     if replay:
         scheds = [json.load(open(replay))['schedule']]
     else:
